@@ -61,6 +61,11 @@ func (q reachQ) run() ssa.Instruction {
 			if nil != q.Target && q.Target(in) {
 				return in
 			}
+			if isNoReturn(in) {
+				/* The path ends here: the process exits. */
+				blocked = true
+				break
+			}
 		}
 		if blocked {
 			continue
@@ -199,4 +204,19 @@ func blockIf(b *ssa.BasicBlock) *ssa.If {
 	}
 	ifi, _ := b.Instrs[len(b.Instrs)-1].(*ssa.If)
 	return ifi
+}
+
+// isNoReturn: a call which never returns to its caller.
+func isNoReturn(i ssa.Instruction) bool {
+	c, ok := i.(*ssa.Call)
+	if !ok {
+		return false
+	}
+	switch calleeName(c.Common()) {
+	case "os.Exit", "log.Fatal", "log.Fatalf", "log.Fatalln", "log.Panic", "log.Panicf", "log.Panicln", "runtime.Goexit",
+		"(*log.Logger).Fatal", "(*log.Logger).Fatalf", "(*log.Logger).Fatalln", "(*log.Logger).Panic", "(*log.Logger).Panicf", "(*log.Logger).Panicln",
+		"syscall.Exit", "(*testing.common).FailNow", "(*testing.common).Fatal", "(*testing.common).Fatalf", "(*testing.common).SkipNow", "(*testing.common).Skip", "(*testing.common).Skipf":
+		return true
+	}
+	return false
 }
